@@ -35,6 +35,7 @@ structure WState where
 inductive WStep
   | base (st : Step)
   | cancel (sid : Nat)
+  | reset (sid : Nat)                     -- transport_types.hpp::CancellationToken::reset (the token is reused for a later call)
   | wCall (sid len : Nat)                 -- entry: `if (token.isCancelled()) return Cancelled`
   | wLoop (sid : Nat) (expired : Bool)    -- loop head: deadline, token
   deriving Repr
@@ -82,6 +83,7 @@ def wstep (cfg : Cfg) (ws : WState) : WStep → WState × List WEv
       | none => (ws1, r.2.map WEv.base)
     | none => (ws1, r.2.map WEv.base)
   | .cancel sid => ({ ws with tok := fun j => if j = sid then true else ws.tok j }, [])
+  | .reset sid => ({ ws with tok := fun j => if j = sid then false else ws.tok j }, [])
   | .wCall sid len =>
     match ws.w sid with
     | some _ => (ws, [])
@@ -124,11 +126,38 @@ def okW (ws : WState) : WStep → Bool
   | .wCall sid _ => (ws.w sid).isNone
   | .wLoop sid _ => match ws.w sid with | some c => c.phase == WPhase.idle | none => false
   | .cancel _ => true
+  | .reset sid => (ws.w sid).isNone      -- "MUST NOT be called while any sync operation is in flight using this token"
 
 def DisciplinedW (cfg : Cfg) : WState → List WStep → Prop
   | _, [] => True
   | ws, st :: rest => okW ws st = true ∧ DisciplinedW cfg (wstep cfg ws st).1 rest
 
 def winit : WState := {}
+
+/-! ## what the CALLERS see (the composed stream)
+
+A sub-call of a running wrapper is made by the wrapper, not by the application: its `recvRet` is internal, the application sees the
+wrapper's own `wrapRet`. Every other receive result, and every data-callback delivery, is seen as it is. -/
+
+/-- is the base step `st` a critical section of the running wrapper's sub-call (exactly the test `wstep` makes)? -/
+def subActive (ws : WState) (st : WStep) : Bool :=
+  match st with
+  | .base (.recvEnter sid _) => (match ws.w sid with | some c => c.phase == WPhase.entering | none => false)
+  | .base (.recvWake sid _) => (match ws.w sid with | some c => c.phase == WPhase.inCall | none => false)
+  | _ => false
+
+/-- the bytes of session `sid` that one step's events hand to the application: wrapper returns, data-callback deliveries, and plain
+`receiveSync` returns (`hide`: the step is a sub-call section, its `recvRet` is the wrapper's business) -/
+def userBytes (sid : Nat) (hide : Bool) : List WEv → Bytes
+  | [] => []
+  | .wrapRet j (.ok bs) :: r => (if j = sid then bs else []) ++ userBytes sid hide r
+  | .base (.recvRet j (.ok bs)) :: r => (if j = sid ∧ hide = false then bs else []) ++ userBytes sid hide r
+  | .base (.cbData j d) :: r => (if j = sid then d else []) ++ userBytes sid hide r
+  | _ :: r => userBytes sid hide r
+
+/-- everything the application has been handed for `sid` over a whole wrapper execution, in order -/
+def wrunUser (sid : Nat) (cfg : Cfg) : WState → List WStep → Bytes
+  | _, [] => []
+  | ws, st :: rest => userBytes sid (subActive ws st) (wstep cfg ws st).2 ++ wrunUser sid cfg (wstep cfg ws st).1 rest
 
 end Iora.SyncRecv
